@@ -28,7 +28,7 @@ func nilMeansVerified(c *an.Ctx, f *ssa.Function) bool {
 	if len(f.Params) == 0 || len(f.Blocks) == 0 {
 		return false
 	}
-	recv := "p:" + f.Params[0].Name()
+	recv := "p:" + an.CanonParam(f.Params[0])
 	edges := verifiedEdges(c, f, recv)
 	if len(edges) == 0 {
 		return false
